@@ -40,13 +40,14 @@ pub fn check_bank_overlap(
                         true,
 
                     (Some(size1), None) =>
-                        outp1 + size1 > outp2,
+                        outp1.saturating_add(size1) > outp2,
 
                     (None, Some(size2)) =>
-                        outp2 + size2 > outp1,
+                        outp2.saturating_add(size2) > outp1,
 
                     (Some(size1), Some(size2)) =>
-                        outp1 + size1 > outp2 && outp2 + size2 > outp1,
+                        outp1.saturating_add(size1) > outp2 &&
+                        outp2.saturating_add(size2) > outp1,
                 }
             };
 
